@@ -269,6 +269,9 @@ def p_C12(tier, seed):
         return out
     flt = lambda p: p["op"] in UPDATES or p["op"] in READS or p["op"] in {"remove"}
     f = engines.engine_A("C12", ["pq", "dpq"], n, mp, flt, ["contents"], extra_probes=extra)
+    # append: on a clash the receiver's ELEMENT (item value included) stays unless the other queue was longer
+    f.merge(engines.engine_A("C12", ["pq", "dpq"], n, mp, lambda p: False, ["contents"], extra_probes=append_probes,
+                             wd_name="C12a", max_states=scope(tier, 40, None)))
     nh, nk, no = scope(tier, (8, [8, 20], 300), (32, [8, 20, 50], 1500))
     f.merge(engines.engine_B("C12", ["pq", "dpq"], seed, nh, nk, no, check_every=5,
                              weights={"peek": 12, "get": 12, "iter_mut": 3, "change_priority": 15}))
@@ -888,6 +891,7 @@ PROPS = {
             # item is a priority update)
             "relevant": lambda fl: (bool(set(fl["tags"]) & {"payload", "get_borrowed"}) and fl["cause_op"] not in (BULK - {"extend"}))
             or (fl["cause"].get("b") == 1 and bool(set(fl["tags"]) & {"ret", "contents"}))
+            or (fl["op"] == "append" and "append_contents" in fl["tags"])
             # a *_mut accessor that addresses another element than the one it should: the write lands elsewhere
             or (fl["op"] in ("peek_mut", "peek_min_mut", "peek_max_mut", "get_mut")
                 and bool(set(fl["tags"]) & {"same_as_peek", "peek_stored", "peek_extreme", "peek_none", "ret"}))},
